@@ -8,12 +8,14 @@ use program_structure::report::{Report, ReportCollection};
 use std::collections::HashSet;
 use std::ffi::OsString;
 use std::fs;
-use std::path::PathBuf;
+use std::path::{Path, PathBuf};
 
 pub struct FileStack {
     current_location: Option<PathBuf>,
     black_paths: HashSet<PathBuf>,
     user_inputs: HashSet<PathBuf>,
+    /// Directories (as canonical paths) that have been listed by `add_files`.
+    listed_dirs: HashSet<PathBuf>,
     libraries: Vec<Library>,
     stack: Vec<PathBuf>,
 }
@@ -30,6 +32,7 @@ impl FileStack {
             current_location: None,
             black_paths: HashSet::new(),
             user_inputs: HashSet::new(),
+            listed_dirs: HashSet::new(),
             libraries: Vec::new(),
             stack: Vec::new(),
         };
@@ -63,6 +66,12 @@ impl FileStack {
     fn add_files(&mut self, paths: &[PathBuf], reports: &mut ReportCollection) {
         for path in paths {
             if path.is_dir() {
+                // A directory that is reached again through a link is only
+                // listed once. (Otherwise links to parent directories make
+                // the number of paths explode.)
+                if !self.first_visit(path) {
+                    continue;
+                }
                 // Handle directories on a best effort basis only.
                 if let Ok(entries) = fs::read_dir(path) {
                     let paths: Vec<_> = entries.flatten().map(|x| x.path()).collect();
@@ -81,6 +90,14 @@ impl FileStack {
                     }
                 }
             }
+        }
+    }
+
+    /// Returns false if the directory has already been listed by `add_files`.
+    fn first_visit(&mut self, dir: &Path) -> bool {
+        match fs::canonicalize(dir) {
+            Ok(dir) => self.listed_dirs.insert(dir),
+            Err(_) => true,
         }
     }
 
